@@ -45,6 +45,8 @@ func runExtras(l *loaded, run *PropRun, prop, tier string) {
 				frameParamObligations(l, run, k, []string{p}, "options")
 			}
 		}
+	case "C01", "C06", "C19":
+		fragmentTagObligations(l, run)
 	case "C05", "C15":
 		pointableObligations(l, run)
 	case "C04":
@@ -186,5 +188,85 @@ func pointableObligations(l *loaded, run *PropRun) {
 	if n == 0 {
 		run.Extra = append(run.Extra, &Obligation{Name: "pointable/none", Kind: "frame", Props: []string{run.Prop}, Solver: "go/types", Expect: "unsat", Status: "failed",
 			Src: "some kind has a JSONLookup method", Model: "no type of the package has a JSONLookup method any more: the obligation no longer binds"})
+	}
+}
+
+// fragmentTagObligations: the round-trip and no-duplicate lemmas of the kinds whose MarshalJSON joins several fragments
+// with swag.ConcatJSON (every struct that embeds VendorExtensible next to its keyword structs) take as a precondition
+// that the JSON names of the keyword fragments are not extension names, are not "$ref" and do not occur in two
+// fragments. Those are facts about the struct tags of the working tree, so they are obligations here, decided with
+// go/types: for every such kind, (1) no tagged name of a keyword fragment starts with "x-" (case-insensitively, as
+// VendorExtensible matches them), (2) no name other than Refable's is "$ref", (3) no name occurs in two fragments.
+func fragmentTagObligations(l *loaded, run *PropRun) {
+	scope := l.pkg.Types.Scope()
+	names := scope.Names()
+	sort.Strings(names)
+	n := 0
+	for _, name := range names {
+		tn, ok := scope.Lookup(name).(*types.TypeName)
+		if !ok || tn.IsAlias() {
+			continue
+		}
+		st, ok := tn.Type().Underlying().(*types.Struct)
+		if !ok {
+			continue
+		}
+		hasExt := false
+		for i := 0; i < st.NumFields(); i++ {
+			if f := st.Field(i); f.Embedded() && f.Name() == "VendorExtensible" {
+				hasExt = true
+			}
+		}
+		if !hasExt {
+			continue
+		}
+		n++
+		var problems []string
+		owner := map[string]string{}
+		for i := 0; i < st.NumFields(); i++ {
+			f := st.Field(i)
+			if f.Embedded() && (f.Name() == "VendorExtensible") {
+				continue
+			}
+			frag := f.Name()
+			var fields []jsonField
+			ft := f.Type()
+			if pt, ok := ft.Underlying().(*types.Pointer); ok {
+				ft = pt.Elem()
+			}
+			if est, ok := ft.Underlying().(*types.Struct); ok && f.Embedded() {
+				fields = jsonFields(est)
+			} else {
+				fields = jsonFields(types.NewStruct([]*types.Var{f}, []string{st.Tag(i)}))
+			}
+			for _, jf := range fields {
+				low := strings.ToLower(jf.name)
+				if strings.HasPrefix(low, "x-") {
+					problems = append(problems, "member "+jf.name+" of fragment "+frag+" is an extension name: VendorExtensible emits and reads it as well")
+				}
+				if jf.name == "$ref" && frag != "Refable" {
+					problems = append(problems, "member $ref of fragment "+frag+" collides with the reference member")
+				}
+				if prev, dup := owner[jf.name]; dup && prev != frag {
+					problems = append(problems, "member "+jf.name+" occurs in fragments "+prev+" and "+frag)
+				}
+				owner[jf.name] = frag
+			}
+		}
+		o := &Obligation{Name: "tags/" + name + "/fragments-disjoint", Kind: "frame", Props: []string{run.Prop}, Solver: "go/types", Expect: "unsat",
+			Src: "JSON names of the keyword fragments of " + name + " are not extension names, not $ref, and pairwise distinct across fragments (precondition of the ConcatJSON model and of the round-trip lemmas)"}
+		if len(problems) == 0 {
+			o.Status = "proved"
+		} else {
+			sort.Strings(problems)
+			o.Status = "failed"
+			o.Model = strings.Join(problems, "\n")
+			o.replayNote = "type-level obligation (struct tags of the working tree)"
+		}
+		run.Extra = append(run.Extra, o)
+	}
+	if n == 0 {
+		run.Extra = append(run.Extra, &Obligation{Name: "tags/none", Kind: "frame", Props: []string{run.Prop}, Solver: "go/types", Expect: "unsat", Status: "failed",
+			Src: "some kind embeds VendorExtensible", Model: "no struct embeds VendorExtensible any more: the obligation no longer binds"})
 	}
 }
